@@ -431,14 +431,16 @@ def burst_corruption_guard(chk, execs, rnd):
 
 
 def burst_configs(rnd, quick):
+    """sync = n: the threads meet at a barrier every n operations (keeps them on the counter at the same time on a loaded machine)."""
     cfgs = []
-    big = [(2, 20000), (4, 10000), (8, 10000)] if quick else [(2, 100000), (3, 50000), (4, 100000), (6, 50000), (8, 100000)]
-    for T, ops in big:
-        cfgs.append({"threads": T, "ops": ops, "seed": rnd.randint(1, 10 ** 6), "shared": 3})
+    big = [(2, 20000, 0), (4, 10000, 64), (8, 10000, 16)] if quick else \
+        [(2, 100000, 0), (3, 50000, 256), (4, 100000, 64), (6, 50000, 16), (8, 100000, 0), (8, 30000, 8)]
+    for T, ops, sync in big:
+        cfgs.append({"threads": T, "ops": ops, "seed": rnd.randint(1, 10 ** 6), "shared": 3, "sync": sync})
     # many short bursts: all threads hit the counter in their first few operations
     for _ in range(30 if quick else 300):
         cfgs.append({"threads": rnd.choice([2, 3, 4, 8]), "ops": rnd.choice([1, 3, 10, 50, 200]), "seed": rnd.randint(1, 10 ** 6),
-                     "shared": rnd.choice([0, 1, 3])})
+                     "shared": rnd.choice([0, 1, 3]), "sync": rnd.choice([0, 0, 4, 16])})
     return cfgs
 
 
